@@ -26,12 +26,30 @@ pub mod semver {
     }
     impl PartialOrd for Version { #[verifier::external_body] fn partial_cmp(&self, o: &Version) -> (r: Option<core::cmp::Ordering>) { unimplemented!() } }
     pub struct SemverError { pub k: u8 }
+    pub type Error = SemverError;
+    impl core::fmt::Display for SemverError { #[verifier::external_body] fn fmt(&self, f: &mut core::fmt::Formatter<'_>) -> core::fmt::Result { unimplemented!() } }
     impl core::str::FromStr for Version {
         type Err = SemverError;
         #[verifier::external_body]
         fn from_str(s: &str) -> (r: Result<Version, SemverError>) { unimplemented!() }
     }
 }
+
+pub struct ContractVersion { pub contract: String, pub version: String }
+/// cw2::get_contract_version (the stored name / version strings are uninterpreted functions of the cw2 item)
+pub uninterp spec fn cw2_contract(s: Raw) -> Seq<char>;
+pub uninterp spec fn cw2_version(s: Raw) -> Seq<char>;
+#[verifier::external_body]
+pub fn get_contract_version(store: &dyn Storage) -> (r: StdResult<ContractVersion>)
+    ensures r is Ok ==> r->Ok_0.contract@ == cw2_contract(store.view()) && r->Ok_0.version@ == cw2_version(store.view())
+{ unimplemented!() }
+#[verifier::external_trait_specification]
+pub trait ExFromStr: Sized {
+    type ExternalTraitSpecificationFor: core::str::FromStr;
+    type Err;
+    fn from_str(s: &str) -> Result<Self, Self::Err>;
+}
+pub assume_specification<F: core::str::FromStr> [ str::parse::<F> ] (s: &str) -> (r: Result<F, F::Err>);
 
 /// the version a contract was stored with before this migration (uninterpreted function of the cw2 item)
 pub uninterp spec fn cw2_stored_version(s: Raw) -> semver::Version;
